@@ -162,10 +162,13 @@ std::string oracle(const std::vector<std::string>& gens) {
    if (gens.size() < static_cast<size_t>(std::max(gS.gens, 1)) && flat.size() != gWritten.size())
       return "!! messages lost although fewer generations than configured exist (retained " +
              std::to_string(flat.size()) + " of " + std::to_string(gWritten.size()) + ")";
-   // (1c) the most recent message is retained (given (1): the retained messages are not empty) -- except with a
-   //      single generation file that is empty (Lean: C15_latest_retained / C15_latest_lost_iff)
+   // (1c) the most recent message is retained (given (1): the retained messages are not empty).  With a single
+   //      generation file that a restart found full this fails on the unchanged library (Lean:
+   //      C15_latest_retained_partial / C15_latest_lost_iff / C15_finding_single_file_restart): recorded finding
+   //      `single-file-restart-loses-all`, matched by the plugin; the listing follows behind " :: " and is
+   //      still compared with the model
    const size_t maxGens = static_cast<size_t>(std::max(gS.gens, 1));
-   if (!gWritten.empty() && flat.empty() && (maxGens >= 2 || (!lines.empty() && !lines.back().empty())))
+   if (!gWritten.empty() && flat.empty())
       return "!! the most recent message is not retained (0 of " + std::to_string(gWritten.size()) + ")";
    // (1d) one event drops at most the oldest generation, and only when the configured number of files existed
    //      (Lean: C15_drop_at_most_oldest); given (1) it is enough to count
